@@ -1,11 +1,11 @@
-\* Universe E (quick): one + or * application, then an optional assign and an Equation (lhs or rhs = the node built) for every comparison, hard and soft, epsilon 0, 1/4 and 1e-7.
+\* Universe E (quick): one + application, then an optional assign and an Equation (lhs or rhs = the node built) for every comparison, hard and soft, epsilon 0 and 1/4.
 SPECIFICATION Spec
 CONSTANTS
   Consts <- ConstsH
   Scals <- ScalsH
-  Vals <- ValsA
+  Vals <- ValsH
   Inits <- InitsA
-  BinOps <- TwoBin
+  BinOps <- OneBin
   WithSqrt = FALSE
   WithRaw = FALSE
   SameNames = {0}
